@@ -9,12 +9,57 @@ RULE = ("seeded random put worlds biased to symlink arguments: link to file / di
         "link / the top directory of another volume, 0-3 trailing slashes, reached through a symlinked parent, link and target on "
         "different volumes; oracle: a link is trashed whenever C07.expected names a usable trash directory, "
         "payload is the same link, target subtree untouched, recorded Path is the link's location with only the parent "
-        "resolved (relative to $topdir in volume trash dirs)")
+        "resolved (relative to $topdir in volume trash dirs); restore half: trashed links (most of them dangling as seen from "
+        "files/) restored over free and occupied locations with and without --overwrite come back as the same link")
+
+
+def restore_tweak(world, rng):
+    """the restore half: trashed entries that are symbolic links (relative, absolute, dangling - most do not resolve from
+    inside files/), destinations of every kind in the way, with and without --overwrite"""
+    from .c06 import tweak as dest_tweak
+    ow = rng.random() < 0.6
+    world["opts"]["overwrite"] = ow
+    world = dest_tweak(world, rng)
+    world["opts"]["overwrite"] = ow and not any(e.get("dup") for e in world["meta"]["entries"])
+    nodes = {n["p"]: n for n in world["nodes"]}
+    for e in world["meta"]["entries"]:
+        pay = e["tdir"] + b"/files/" + e["name"]
+        if rng.random() < 0.8:
+            for q in [q for q in nodes if q == pay or q.startswith(pay + b"/")]:
+                del nodes[q]
+            nodes[pay] = {"p": pay, "k": "l", "target": rng.choice([b"d1", b"../sibling", b"nowhere", b"/SBX/outside/sentinel",
+                                                                      b"/SBX/outside", b"./x/../y"])}
+    world["nodes"] = sorted(nodes.values(), key=lambda n: n["p"])
+    from ..model import cmd_argv
+    world["argv"] = cmd_argv(world)
+    return world
+
+
+RESTORE_CFG = {"cmds": ["restore"], "oracles": ("effects", "listing", "exit"), "violations": ("effects",), "profile": "clean",
+               "states": False, "tweak": restore_tweak}
 
 
 def run(tier, seed):
-    return run_family("C18", tier, seed, CFG, 400, 6000, LEVEL_NOTE, RULE)
+    from ..core import Check, audit
+    from ..putfamily import absorb, eval_task, search_failing_input
+    from ..readfamily import add_worlds
+    from ..runner import run_tasks
+    ck = Check("C18", tier, seed)
+    info = audit("C18")
+    n = 400 if tier == "quick" else 6000
+    absorb(ck, "C18", run_tasks(eval_task, [{"pid": "C18", "seed": seed, "i": i, "cfg": CFG} for i in range(n)]), CFG, "Model.Put")
+    search_failing_input(ck, "C18", seed, CFG, n, "Model.Put")
+    # "Restoring it recreates the same link": trashed links coming back over free and occupied locations
+    add_worlds(ck, "C18r", seed, RESTORE_CFG, 200 if tier == "quick" else 3000)
+    return ck.finish(info, LEVEL_NOTE, RULE)
 
 
 def replay(path):
+    import json
+    obj = json.load(open(path))
+    rp = obj.get("replay") if isinstance(obj.get("replay"), dict) else {}
+    w = rp.get("world") or next((c.get("world") for c in obj.get("disagreeing_cases", []) if c and c.get("world")), None)
+    if w and w.get("cmd") == "restore":
+        from ..readfamily import replay_family as read_replay
+        return read_replay("C18", path, RESTORE_CFG)
     return replay_family("C18", path, CFG)
